@@ -41,6 +41,11 @@ def run(ctx: Ctx):
     model = ctx.model
     from .common_node import names_resolve
     names_resolve(ctx, "C12-RN")
+    from . import c18 as _c18
+    ctx.include(_c18.run, {"C18-R2"}, "C12-R16",
+                "a connection that is registered while the node is stopping is refused, dialled "
+                "ones included (`unless the node is stopping`)", floor=1,
+                constructs=lambda c: c.startswith("_add_peer_connection:refuse-while-stopping"))
     nc = model.cls("node.node", "Node")
     peer_mod = model.module("node.peer")
     C = lambda n: model.fold_name(peer_mod, n)
